@@ -205,6 +205,10 @@ def body_gradients(case, ctx):
             # the objective depends on sigma through z^2/2 (EI) or sigma itself
             amp = max(1.0, (a / sig[0]) ** 2)
             floor = 100 * kappa * EPS * amp * (abs(plain) + 1 + z * z) / h
+            # the predictive mean is formed at the level of the data (eps*max|y| absolute round-off, a staircase under the
+            # stencil); the objective's sensitivity to it is (|z| + 1)/sigma for -log EI and 1 for the confidence bound
+            sens = {"EI": (abs(z) + 1) / sig[0], "UCB": 1.0, "MaxVar": 0.0}[case["acq"]]
+            floor += 8 * EPS * float(np.max(np.abs(y))) * sens / h
             if floor > 1e-3 * max(np.max(np.abs(grad)), 1e-300):
                 ctx.inconclusive["stencil-roundoff-too-large"] += 1
                 continue
@@ -236,7 +240,8 @@ def history_cases(draw):
     return {"seed": draw(st.integers(0, 2**31)), "d": d, "x0": x0, "with_err": draw(st.booleans()),
             "x_dtype": draw(st.sampled_from(["float", "float", "int"])), "y_dtype": draw(st.sampled_from(["float", "float", "int"])),
             "acq": draw(st.sampled_from(["EI", "UCB", "MaxVar"])), "x_form": draw(st.sampled_from(["2d", "1d", "list"])),
-            "init_optimizer": draw(st.sampled_from(["bfgs", "bfgs", "diffev"])), "ops": ops}
+            "init_optimizer": draw(st.sampled_from(["bfgs", "bfgs", "diffev"])), "ops": ops,
+            "bounds_form": draw(st.sampled_from(["tuples", "lists", "array", "array", "int-array"]))}
 
 
 def snapshot(a):
@@ -266,7 +271,11 @@ def body_history(case, ctx):
         raise Inconclusive("degenerate initial data")
     err0 = np.full(y0.size, 0.05) if case["with_err"] else None
     lim = 8.0 if case.get("x_dtype") == "int" else 2.0
-    bounds = [(-lim, lim)] * d
+    # the search box in any of the forms a caller holds it in; an array is the caller's own and is watched like x and y
+    bform = case.get("bounds_form", "tuples")
+    bounds = {"tuples": [(-lim, lim)] * d, "lists": [[-lim, lim] for _ in range(d)], "array": np.array([[-lim, lim]] * d, dtype=float),
+              "int-array": np.array([[-int(lim), int(lim)]] * d, dtype=np.int64)}[bform]
+    bounds_snap = snapshot(bounds) if isinstance(bounds, np.ndarray) else ("obj", repr(bounds))
     if d == 1 and case["x_form"] == "1d":
         x_in = X0[:, 0].copy()
     elif case["x_form"] == "list":
@@ -348,11 +357,14 @@ def body_history(case, ctx):
         for name, arr, sn in zip(("x", "y", "y_err"), (x_in, y_in, err_in), snaps):
             if not unchanged(arr, sn):
                 raise Violation(f"caller-array:later:{name}", f"the caller's constructor argument {name} changed after {op}")
+        if (isinstance(bounds, np.ndarray) and not unchanged(bounds, bounds_snap)) or (not isinstance(bounds, np.ndarray) and repr(bounds) != bounds_snap[1]):
+            raise Violation("caller-array:later:bounds", f"the caller's bounds ({bform}) changed after {op}: now {np.asarray(bounds).tolist()}")
     ctx.nontrivial(n_add >= 2 and n_prop >= 1)
     ctx.event(f"acq={case['acq']}")
     ctx.event(f"d={d}")
     ctx.event(f"adds={n_add}")
     ctx.event("x_form=" + case["x_form"])
+    ctx.event("bounds_form=" + bform)
     ctx.event("x_dtype=" + case.get("x_dtype", "float") + ",y_dtype=" + case.get("y_dtype", "float"))
     for op in case["ops"]:
         if op["op"] == "propose":
